@@ -256,8 +256,10 @@ let () =
                  | _ -> stat "unresolved" 1)
               | [ "EVAL"; a ] ->
                 (match get a, split_ws p.pres with
-                 | Some ta, [ "tt"; nn; hex ] when int_of_string nn = n ->
+                 | Some ta, ("tt" :: nn :: hex :: dup) when int_of_string nn = n ->
                    check "C02";
+                   if dup = [ "dup=0" ] then
+                     fail p.pstep "C02" "prop" "eval with every variable listed twice (opposite value first) differs from eval with the last values only: the last value of a variable must count";
                    let tab = Z.of_string_base 16 hex in
                    let impl = Array.init (1 lsl n) (fun idx -> if Z.testbit tab idx then 1 else 0) in
                    if impl <> ta then
